@@ -309,7 +309,13 @@ def check_cleanup(ctx: Check, tree: Tree) -> None:
     # paths through one loop iteration only: wrap the body
     seen: dict[str, tuple] = {}
     for events, status, _ in walker._block(loop.body, fn, 0):
-        tests = [(_name_safe(unparse(e[1]), idx, values), e[2]) for e in events if e[0] == "test"]
+        from ..canon import normal_test
+
+        tests = []
+        for e in events:
+            if e[0] == "test":
+                t_, o_ = normal_test(e[1], e[2])
+                tests.append((_name_safe(unparse(t_), idx, values), o_))
         stmts = [e[1] for e in events if e[0] == "stmt"]
         retained = any(
             isinstance(s, ast.Expr) and isinstance(s.value, ast.Call) and isinstance(s.value.func, ast.Attribute) and s.value.func.attr in {"append", "add"}
